@@ -677,6 +677,10 @@ func (p *Parser) evaluateImports(ctx context) ([]Statement, error) {
 		}
 
 		for {
+			// Skip blank or comment-only lines within an import group.
+			for multiple && p.peek().Type() == lexer.NEWLINE {
+				p.eat()
+			}
 			imp, err := p.evaluateImport()
 
 			if err != nil {
@@ -750,6 +754,9 @@ func (p *Parser) evaluateImports(ctx context) ([]Statement, error) {
 				}
 			}
 
+			for multiple && p.peek().Type() == lexer.NEWLINE {
+				p.eat()
+			}
 			nextToken = p.peek()
 			nextTokenType := nextToken.Type()
 
